@@ -168,6 +168,24 @@ def handle (line : Json) : Json :=
     let path := "parse/" ++ (match m with | .refused => "refused-entities" | .notThisClass => "other-root" | .raised => "raised" | .obj _ => "object")
     Json.mkObj [("model", resJ m), ("path", path), ("branches", jstrs br),
       ("spec_model", specDoc E cls dtd x m), ("spec_impl", specDoc E cls dtd x (jRes impl))]
+  | "history" =>
+    -- every step judged alone; the model has no state between steps (prefix maps do not reach the tree level)
+    let steps := arrD c "steps"
+    let isteps := arrD impl "steps"
+    let res := steps.zipIdx.map fun (st, k) =>
+      let i := jInst ((obj? st "inst").getD Json.null)
+      let m := modelRoundTrip E i
+      let iv := jRt (isteps.getD k Json.null)
+      let ext := strD st "form" == "ext"
+      let sp := fun (o : RtOut) => if ext then specRoundTripExt i o else specRoundTrip T i o
+      (rtJ m, sp m, sp iv, strD st "form" ++ (if (obj? st "nspair").isSome then "+nspair" else ""))
+    let okM := res.all (·.2.1)
+    let okI := res.all (·.2.2.1) && isteps.length == steps.length
+    let br := res.foldl (fun acc r => if acc.contains ("form." ++ r.2.2.2) then acc else ("form." ++ r.2.2.2) :: acc) []
+    Json.mkObj [("model", Json.mkObj [("steps", jarr (res.map (·.1)))]),
+      ("path", if okM then "history/all-steps-unchanged" else "history/some-step-changed"), ("branches", jstrs br),
+      ("spec_model", okM), ("spec_impl", okI),
+      ("why", Json.mkObj [("failing_steps", jnats ((res.zipIdx.filter fun (r, _) => !r.2.2.1).map (·.2)))])]
   | "xsdorder" =>
     let cls := natD c "cls"
     let x := jNode ((obj? c "tree").getD Json.null)
